@@ -399,6 +399,109 @@ class SocketAdapter(Path):
             self.log({"ev": "inner_close", "i": 1})
 
 
+class DatagramSocketAdapter(Path):
+    name = "AsyncioTransportDatagramSocketAdapter.aclose"
+
+    async def setup(self) -> None:
+        self.backend = _backend()
+        self.a, self.b = harness.loopback_udp_pair()
+        self.cleanup += [self.b.close, self.a.close]
+        self.adapter = await self.backend.wrap_connected_datagram_socket(self.a)
+        self.closed_logged = False
+
+    def close(self) -> Awaitable[None]:
+        async def do() -> None:
+            try:
+                await self.adapter.aclose()
+            finally:
+                self._probe()
+
+        return do()
+
+    def _probe(self) -> None:
+        if (self.a.fileno() == -1 or harness.asyncio_transport_of_any(self.adapter).is_closing()) and not self.closed_logged:
+            self.closed_logged = True
+            self.log({"ev": "inner_close", "i": 1})
+
+
+class ListenerAdapter(Path):
+    """The TCP listener of the asyncio backend while serve() is running: aclose() has one suspension point."""
+
+    name = "ListenerSocketAdapter.aclose (serve running)"
+
+    async def setup(self) -> None:
+        self.backend = _backend()
+        path = self
+
+        class RecSocket(socket.socket):
+            def close(self) -> None:
+                if self.fileno() != -1:
+                    path.log({"ev": "inner_close", "i": 1})
+                super().close()
+
+        base = socket.socket(socket.AF_INET, socket.SOCK_STREAM)
+        base.bind(("127.0.0.1", 0))
+        base.listen(5)
+        self.lsock = RecSocket(base.family, base.type, base.proto, fileno=base.detach())
+        from easynetwork.lowlevel.api_async.backend._asyncio.stream.listener import AcceptedSocketFactory, ListenerSocketAdapter
+
+        self.listener = ListenerSocketAdapter(self.backend, self.lsock, AcceptedSocketFactory())
+
+        async def handler(stream: Any) -> None:
+            await stream.aclose()
+
+        self.serve = asyncio.ensure_future(self.listener.serve(handler))
+        await harness.settle()
+
+        async def stop() -> None:
+            self.serve.cancel()
+            await asyncio.gather(self.serve, return_exceptions=True)
+            if self.lsock.fileno() != -1:
+                socket.socket.close(self.lsock)
+
+        self.cleanup.append(stop)
+
+    def close(self) -> Awaitable[None]:
+        return self.listener.aclose()
+
+
+class TCPClientWhileConnecting(Path):
+    """aclose() while send_packet() of another task is performing the (lazy) connection: the attempt has to be abandoned at once."""
+
+    name = "AsyncTCPNetworkClient.aclose (send_packet is connecting)"
+
+    async def setup(self) -> None:
+        from easynetwork.clients.async_tcp import AsyncTCPNetworkClient
+        from easynetwork.protocol import StreamProtocol
+        from easynetwork.serializers.line import StringLineSerializer
+
+        self.backend = harness.HarnessBackend()
+        path = self
+        never = asyncio.Event()
+
+        async def create_tcp_connection(*a: Any, **kw: Any) -> Any:
+            try:
+                await never.wait()
+            except asyncio.CancelledError:
+                path.log({"ev": "inner_close", "i": 1})  # the pending attempt (and whatever socket it had) is given up
+                raise
+            raise AssertionError("unreachable")
+
+        self.backend.create_tcp_connection = create_tcp_connection  # type: ignore[method-assign]
+        self.client = AsyncTCPNetworkClient(("verif.invalid", 9), StreamProtocol(StringLineSerializer()), backend=self.backend)
+        self.sender = asyncio.ensure_future(self.client.send_packet("hello"))
+        await harness.settle()
+
+        async def stop() -> None:
+            self.sender.cancel()
+            await asyncio.gather(self.sender, return_exceptions=True)
+
+        self.cleanup.append(stop)
+
+    def close(self) -> Awaitable[None]:
+        return self.client.aclose()
+
+
 PATHS: list[type[Path]] = [
     TLSCloseAnswer,
     TLSCloseStall,
@@ -413,6 +516,9 @@ PATHS: list[type[Path]] = [
     SocketAdapter,
     ServerSideClient,
     ServerSideClientBehindSender,
+    DatagramSocketAdapter,
+    ListenerAdapter,
+    TCPClientWhileConnecting,
 ]
 
 
@@ -463,7 +569,7 @@ async def _run_once(cls: type[Path], cancel_before: int | None, fail_inner: int,
         events.append({"ev": "hang"})
         task.cancel()
     else:
-        if isinstance(path, SocketAdapter):
+        if isinstance(path, (SocketAdapter, DatagramSocketAdapter)):
             path._probe()
         finished[0] = True
         if task.cancelled():
